@@ -755,7 +755,16 @@ func (obj *Hmm) ExportConfig() ConfigDistribution {
     StartStates []int
     FinalStates []int }{}
   parameters.Pi       = AsDenseFloat64Vector(obj.Pi)
-  parameters.Tr       = AsDenseFloat64Vector(obj.Tr.AsVector())
+  // row by row: the order in which AsVector lists the elements of a
+  // transposed matrix is that of its storage
+  { tn, tm := obj.Tr.Dims()
+    parameters.Tr = make([]float64, 0, tn*tm)
+    for i := 0; i < tn; i++ {
+      for j := 0; j < tm; j++ {
+        parameters.Tr = append(parameters.Tr, obj.Tr.ConstAt(i, j).GetFloat64())
+      }
+    }
+  }
   parameters.StateMap = obj.StateMap
   parameters.N        = n
 
